@@ -3,6 +3,8 @@
 package eng
 
 import (
+	"log"
+	"io"
 	"fmt"
 	"math/rand"
 	"os"
@@ -31,6 +33,15 @@ func (quiet) Fatalf(f string, a ...any) { panic("FATALF: " + fmt.Sprintf(f, a...
 func (quiet) Panicf(f string, a ...any) { panic(fmt.Sprintf(f, a...)) }
 
 func init() { logger.SetLogger(quiet{}) }
+
+// DefaultLogger installs a fresh instance of the repository's own logger type (what a user of the
+// engine gets, here with its output discarded: the formatting and locking of pkg/logger run, nothing
+// reaches stderr) and returns the function that puts the quiet logger back. Handles capture the
+// logger when they are opened, so call it before Open.
+func DefaultLogger() (restore func()) {
+	logger.SetLogger(&logger.FLogger{Logger: log.New(io.Discard, "originium ", log.LstdFlags)})
+	return func() { logger.SetLogger(quiet{}) }
+}
 
 // Hooks is the process-wide handler state. Counters are lock-free; the delay PRNG has its own lock.
 type Hooks struct {
